@@ -139,7 +139,7 @@ def build(variant, outdir=None):
 
 
 def load_known():
-    p = os.path.join(VERIF, "known_findings.json")
+    p = os.environ.get("VERIF_KNOWN_FINDINGS") or os.path.join(VERIF, "known_findings.json")  # the override is for self-tests only
     if not os.path.exists(p):
         return []
     with open(p) as f:
